@@ -138,6 +138,9 @@ class Ctx:
                 print(f"KNOWN-FINDING: property={self.prop} {f['id']} {f['what']} ({self.known_hits[f['id']]} cases)", flush=True)
         for d in self.drift[:20]:
             print(f"DRIFT property={self.prop} {d}", flush=True)
+        vfile = VERIF / "out" / f"violations_{self.prop}.json"
+        if vfile.exists() and not self.violations:
+            vfile.unlink()
         if self.violations:
             REPLAY.mkdir(parents=True, exist_ok=True)
             (VERIF / "out" / f"violations_{self.prop}.json").write_text(json.dumps(self.violations, default=str))
